@@ -524,7 +524,9 @@ impl From<u128> for Natural {
         }
         let leading = value.leading_zeros();
         let shl = value.trailing_zeros();
-        if leading - shl <= u64::BITS {
+        // The mantissa `value >> shl` has `u128::BITS - leading - shl` bits. It
+        // fits into a single digit iff this number is at most `u64::BITS`.
+        if leading + shl >= u64::BITS {
             Self::from_mantissa_single_with_shl((value >> shl) as u64, shl as u64)
         } else {
             let value = value >> shl;
